@@ -1,5 +1,6 @@
 import Driver.Proto
 import Driver.ProtoSQ
+import TinyFlux.Model.Codec
 import TinyFlux.Model.DB
 /-! Line protocol → the executable model of the implementation (incl. the generated definitions). -/
 open TinyFlux TinyFlux.Spec TinyFlux.Proto TinyFlux.Model
@@ -57,6 +58,37 @@ def idxLine (s : State) : List Sexp → String
     | none => "bad-op"
   | _ => "bad-op"
 
+/-- `(codec <c> <pt> (iso <hex>) (reprs (<num> <hex>)...) (parses (<hex> <num|!>)...))`:
+    serialise with the stdlib conversions supplied as tables, decode the row again -/
+def codecLine (sx : Sexp) : String :=
+  match sx with
+  | .list [.atom "codec", c, pt, .list [.atom "iso", .atom iso], .list (.atom "reprs" :: rs),
+           .list (.atom "parses" :: ps)] =>
+    let r : Option String := do
+      let compact ← parseBool c
+      let p ← (← parsePoint pt)
+      let isoS ← unhex iso
+      let reprs ← rs.mapM (fun e => match e with
+        | .list [.atom n, .atom t] => do pure (← parseNum n, (← unhex t).toList)
+        | _ => none)
+      let parses ← ps.mapM (fun e => match e with
+        | .list [.atom t, .atom n] => do
+            pure ((← unhex t).toList, ← (if n == "!" then some none else (parseNum n).map some))
+        | _ => none)
+      let fc : Codec.FieldCodec :=
+        { repr := fun n => ((reprs.find? (fun e => e.1 == n)).map (·.2)).getD "?".toList,
+          parse := fun t => ((parses.find? (fun e => e.1 == t)).map (·.2)).getD none }
+      let tc : Codec.TimeCodec :=
+        { iso := fun _ => isoS.toList,
+          fromIso := fun t => if t == isoS.toList then some p.time else none }
+      let row := Codec.serialize fc tc compact p
+      let back := match Codec.deserialize fc tc row with
+        | some q => showPoint q
+        | none => "err"
+      pure (s!"row={showList (fun c => hex (String.ofList c)) row} back={back}")
+    r.getD "bad-op"
+  | _ => "bad-op"
+
 def mkCfg (storage : String) (auto : String) : Cfg :=
   { autoIndex := auto == "auto", norm := if storage == "csv" then id else id }
 
@@ -70,6 +102,7 @@ def modelLine (s : State) (line : String) : State × String :=
       (s, s!"valid={if s.index.valid then 1 else 0} contents=" ++ showList showPoint s.storage)
     | .list [.atom "reopen"] => (reopen s, "ok unit")
     | .list (.atom "idx" :: rest) => (s, idxLine s rest)
+    | .list (.atom "codec" :: _) => (s, codecLine sx)
     | .list [.atom "eval", q, pt] =>
       match parseQuery q, parsePoint pt with
       | some q, some (some p) =>
